@@ -147,6 +147,7 @@ Attributes: Logarithms
 """
 
 import math
+import threading
 from collections import defaultdict
 from decimal import Decimal
 from functools import lru_cache, reduce, total_ordering
@@ -200,7 +201,20 @@ class FractionalDimensionError(ValueError):
         )
 
 
-class Dimension:
+_interning = threading.RLock()
+
+
+class _Interned(type):
+    """Metaclass of the classes whose instances are singletons per process: looking an
+    instance up, creating it and initialising it is one atomic step, so that concurrent
+    threads denoting the same object always obtain the same instance."""
+
+    def __call__(cls, *args: Any, **kwargs: Any) -> Any:
+        with _interning:
+            return super().__call__(*args, **kwargs)
+
+
+class Dimension(metaclass=_Interned):
     """Dimension represents the kind of physical quantity being measured.
 
     Unless you're doing something really cool, you probably won't instantiate new
@@ -593,7 +607,7 @@ def _pow(base: Numeric, exponent: Numeric) -> Numeric:
     return base**exponent
 
 
-class Prefix:
+class Prefix(metaclass=_Interned):
     """Prefixes scale a [`Unit`][measured.Unit] up or down by a constant factor.
 
     Prefixes are defined in systems of factors with a common integer base, and
@@ -849,7 +863,7 @@ class Prefix:
         return Prefix(self.base, int(self.exponent // degree))
 
 
-class Unit:
+class Unit(metaclass=_Interned):
     """Unit is a predetermined reference amount or definition for a measurable quantity
 
     `measured` includes a number of well-known units, and additional contributions are
@@ -1639,7 +1653,7 @@ class Quantity:
         return unit.level(self)
 
 
-class Logarithm:
+class Logarithm(metaclass=_Interned):
     """A `Logarithm` forms a family of [`LogarithmicUnits`][measured.LogarithmicUnit],
     which measures the _ratio_ of a measured [`Quantity`][measured.Quantity] to a
     reference [`Quantity`][measured.Quantity] on a logarithmic scale.  Commonly used
@@ -1731,7 +1745,7 @@ class Logarithm:
         return LogarithmicUnit(self, reference)
 
 
-class LogarithmicUnit:
+class LogarithmicUnit(metaclass=_Interned):
     """A `LogarithmicUnit` represents a _ratio_ of a measured
     [`Quantity`][measured.Quantity] to a reference [`Quantity`][measured.Quantity] on a
     logarithmic scale.
